@@ -77,6 +77,10 @@ pub struct RunCfg {
     /// extra observations to log (bit set of PROBE_*)
     #[serde(default)]
     pub probes: u8,
+    /// the context already owns a small tape (under the guard allocator, if armed) when the call starts,
+    /// as when a context is reused for a second program
+    #[serde(default)]
+    pub pre_tape: bool,
 }
 
 /// log statistics of the bytecode the executor holds (bc / jit only)
@@ -87,7 +91,7 @@ pub const PROBE_IR: u8 = 2;
 
 impl RunCfg {
     pub fn plain(backend: Backend, level: u32) -> RunCfg {
-        RunCfg { backend, level, mode: Mode::Exec, fault: Fault::None, alloc: Alloc::OFF, probes: 0 }
+        RunCfg { backend, level, mode: Mode::Exec, fault: Fault::None, alloc: Alloc::OFF, probes: 0, pre_tape: false }
     }
     pub fn describe(&self, bits: u32) -> String {
         format!("{} -O{} i{} {:?} fault={:?} alloc={}", self.backend.name(), self.level, bits, self.mode, self.fault, self.alloc.mode)
@@ -153,6 +157,13 @@ fn run_executable<C: CellType, E: Executable<C>>(e: &E, input: &[u8], cfg: &RunC
         _ => Some(Box::new(LogOut { n: 0, fail_at: None })),
     };
     let mut cx = Context::<C>::new(inp, out);
+    if cfg.pre_tape && !matches!(cfg.mode, Mode::Unsafe(..)) {
+        if cfg.alloc.mode != 0 {
+            galloc::arm(cfg.alloc.mode as usize);
+        }
+        // all-zero cells around the origin: invisible to the program
+        cx.memory.make_accessible(-2, 3);
+    }
     if let Mode::Unsafe(lo, hi) = cfg.mode {
         // the region is set up before arming fault injection, but inside the guard allocator
         if cfg.alloc.mode != 0 {
@@ -162,7 +173,7 @@ fn run_executable<C: CellType, E: Executable<C>>(e: &E, input: &[u8], cfg: &RunC
     }
     if cfg.alloc.mode != 0 {
         let z0 = galloc::ZCOUNT.load(std::sync::atomic::Ordering::SeqCst);
-        if !matches!(cfg.mode, Mode::Unsafe(..)) {
+        if !matches!(cfg.mode, Mode::Unsafe(..)) && !cfg.pre_tape {
             galloc::arm(cfg.alloc.mode as usize);
         }
         if let Some(k) = cfg.alloc.fail_zeroed_at {
